@@ -159,9 +159,23 @@ func chainFn(i, next, a int, style string, c *ctxDef, variant int) string {
 	return fmt.Sprintf("(defun @f%d %s %s)", i, ps, body)
 }
 
+// selfFn: function i calls itself in context c; the first parameter counts down, a guard clause ends the recursion.
+func selfFn(i, a int, style string, c *ctxDef) string {
+	ps := params(a, "req")
+	if 1 < i {
+		ps = params(a, style)
+	}
+	forms := []string{"(- %s 1)", "(* %s 2)", "%s"}
+	var args []string
+	for k := 0; k < a; k++ {
+		args = append(args, fmt.Sprintf("(tr 'f%ds%d %s)", i, k+1, fmt.Sprintf(forms[k], pnames[k])))
+	}
+	return fmt.Sprintf("(defun @f%d %s (if (< pa 1) (return-from @f%d %s)) %s)", i, ps, i, leafValue(a, 0), callExpr(c, i, args))
+}
+
 func addCalls(out *[]*program, tierThorough bool) {
 	styles := []string{"req", "opt"}
-	for _, shape := range []string{"chain2", "join3", "chain3", "mutual2", "mutual3", "fan3", "recleaf2", "chain4", "diamond4"} {
+	for _, shape := range []string{"chain2", "join3", "chain3", "mutual2", "mutual3", "fan3", "recleaf2", "self1", "self2", "selfjoin3", "mutual2s", "mutual3s", "chain4", "diamond4"} {
 		thoroughShape := shape == "chain4" || shape == "diamond4"
 		for ci := range ctxs {
 			c := &ctxs[ci]
@@ -174,7 +188,7 @@ func addCalls(out *[]*program, tierThorough bool) {
 						continue // (funcall f) without arguments is rejected by slip: C04's finding, not this property
 					}
 					p := &program{fam: "calls", id: fmt.Sprintf("calls:%s:%s:%d:%s", shape, c.name, a, style),
-						thorough: thoroughShape || !c.quick || (style == "opt" && a == 3)}
+						thorough: thoroughShape || shape == "mutual3s" || !c.quick || (style == "opt" && a == 3)}
 					switch shape {
 					case "chain2", "chain3", "chain4":
 						n := int(shape[5] - '0')
@@ -201,6 +215,55 @@ func addCalls(out *[]*program, tierThorough bool) {
 							strings.Join(append([]string{""}, pnames[1:a]...), " "))}
 						p.main = "(@f1" + mainArgs(a) + ")"
 						p.feats = append(p.feats, "self-recursion")
+					case "self1", "self2", "selfjoin3":
+						// a directly self-recursive function whose self-call sits in the context (a strict position for
+						// the plain contexts): termination by a guard clause, not by a conditional around the call
+						if a == 0 {
+							continue
+						}
+						if shape == "selfjoin3" && c.name == "seq" {
+							continue
+						}
+						switch shape {
+						case "self1":
+							p.defs = []string{selfFn(1, a, "req", c)}
+							p.alts = []string{chainFn(1, 0, a, "req", c, 1)}
+							p.main = "(@f1" + mainArgs(a) + ")"
+						case "self2":
+							p.defs = []string{chainFn(1, 2, a, style, c, 0), selfFn(2, a, style, c)}
+							p.alts = []string{chainFn(1, 2, a, style, c, 1), chainFn(2, 0, a, style, c, 1)}
+							p.main = "(@f1" + mainArgs(a) + ")"
+						default:
+							p.defs = []string{
+								fmt.Sprintf("(defun @f1 %s %s)", params(a, "req"), callExpr(c, 3, argExprs(1, a, pnames))),
+								fmt.Sprintf("(defun @f2 %s %s)", params(a, "req"), callExpr(c, 3, argExprs(2, a, pnames))),
+								selfFn(3, a, style, c),
+							}
+							p.alts = []string{"", "", chainFn(3, 0, a, style, c, 1)}
+							p.main = "(+ (@f1" + mainArgs(a) + ") (@f2" + mainArgs(a) + "))"
+							p.feats = append(p.feats, "two-callers")
+						}
+						if shape == "self1" && style == "opt" {
+							continue
+						}
+						p.feats = append(p.feats, "self-recursion", "self-recursion-guard-clause")
+					case "mutual2s", "mutual3s":
+						// mutual recursion with EVERY edge in the context, the back edge too (guard clause in the last function)
+						if a == 0 || style == "opt" {
+							continue
+						}
+						n := int(shape[6] - '0')
+						for i := 1; i < n; i++ {
+							p.defs = append(p.defs, fmt.Sprintf("(defun @f%d %s %s)", i, params(a, "req"), callExpr(c, i+1, argExprs(i, a, pnames))))
+							p.alts = append(p.alts, "")
+						}
+						back := []string{fmt.Sprintf("(tr 'f%ds1 (- pa 3))", n)}
+						back = append(back, pnames[1:a]...)
+						p.defs = append(p.defs, fmt.Sprintf("(defun @f%d %s (if (< pa 1) (return-from @f%d %s)) %s)", n, params(a, "req"), n, leafValue(a, 0),
+							callExpr(c, 1, back)))
+						p.alts = append(p.alts, chainFn(n, 0, a, "req", c, 1))
+						p.main = "(@f1" + mainArgs(a) + ")"
+						p.feats = append(p.feats, "mutual-recursion", "self-recursion-guard-clause")
 					case "mutual2", "mutual3":
 						// f1 -> f2 [-> f3] in context, last -> f1 inside if (termination); first parameter counts down
 						if a == 0 || style == "opt" {
